@@ -46,9 +46,9 @@ type AccessNode struct {
 	Storage *gnosisaccessnode.Storage
 }
 
-// NewAccessNode registers the handler as GnosisAccessNode.Start does (gnosisaccessnode/node.go:40) and fills the
+// NewAccessNode registers the handler as GnosisAccessNode.Start does (gnosisaccessnode/node.go:39) and fills the
 // storage with the fixture's keyper set and eon key the way onNewKeyperSet / onNewEonKey do (those two are
-// unexported methods of a struct whose storage cannot be reached, hence repeated here: node.go:65-101).
+// unexported methods of a struct whose storage cannot be reached, hence repeated here: node.go:63-101).
 func NewAccessNode(_ context.Context, fx *Fixture) (*AccessNode, error) {
 	a := &AccessNode{stack: newStack(), Storage: gnosisaccessnode.NewStorage()}
 	cfg := &gnosisaccessnode.Config{InstanceID: fx.InstanceID, MaxNumKeysPerMessage: 500}
